@@ -75,6 +75,17 @@ pub fn check(
             rep.violated.insert(format!("gate:{}@{}", short_id(&inst.gate_ref.0.id()), row));
         }
     }
+    // explicit link between the public-input gate row and the hash of the claimed public inputs
+    // (independent of the gate's own evaluator, which a consistent change could weaken unnoticed)
+    for (row, inst) in instances.iter().enumerate() {
+        if short_id(&inst.gate_ref.0.id()) == "PublicInputGate" {
+            for i in 0..4 {
+                if witness.get_wire(row, i) != public_inputs_hash.elements[i] {
+                    rep.violated.insert(format!("gate:PublicInputGate@{}#link{}", row, i));
+                }
+            }
+        }
+    }
     // copy classes over routed wires
     let mut first_value: std::collections::HashMap<usize, F> = std::collections::HashMap::new();
     let mut bad: BTreeSet<usize> = BTreeSet::new();
